@@ -11,6 +11,8 @@ FILL_MAC = 'hmac-sha2-256'
 UNK_CHACHA = 'chacha20-poly1305@example.org'
 UNK_CBC = 'foo256-cbc'
 UNK_ETM = 'hmac-foo-etm@openssh.com'
+UNK_CBC_LONG = 'vendor-' + 'x' * 70 + '-cbc'                      # longer than the 64 characters RFC 4251 allows a name
+UNK_ETM_LONG = 'hmac-' + 'y' * 70 + '-etm@openssh.com'
 MARK_S = 'kex-strict-s-v00@openssh.com'
 MARK_C = 'kex-strict-c-v00@openssh.com'
 
@@ -20,9 +22,9 @@ def cases(tier):
     mac = H.db_names('mac')
     chachas = [[]] + [[n] for n in enc if T.is_chacha(n)] + [[UNK_CHACHA]]
     db_cbc = [n for n in enc if 'cbc' in n]
-    cbcs = [[]] + [[n] for n in db_cbc] + [db_cbc[:2], [UNK_CBC]]
+    cbcs = [[]] + [[n] for n in db_cbc] + [db_cbc[:2], [UNK_CBC], [UNK_CBC_LONG]]
     db_etm = [n for n in mac if 'etm' in n]
-    etms = [[]] + [[n] for n in db_etm] + [db_etm[:2], [UNK_ETM]]
+    etms = [[]] + [[n] for n in db_etm] + [db_etm[:2], [UNK_ETM], [UNK_ETM_LONG]]
     out = []
     for role in ('server', 'client'):
         for marker in ('none', 'own', 'other', 'both'):
